@@ -23,6 +23,38 @@ MONTH_TARGETS = [(1, "month"), (1, "months"), (3, "months"), (1, "quarter"), (6,
                  (1, "year"), (12, "Months"), (1, "Years"), (2, "month"), (4, "months"), (2, "years")]
 
 
+FEB_TARGETS = [(1, "year"), (12, "months"), (1, "Years"), (2, "years"), (24, "month"), (6, "month"),
+               (2, "quarters"), (1, "quarter"), (3, "months")]
+
+
+def feb_cells(rng, metas, cls, res, vkind, n_samples, per_cell):
+    """month-aligned periods of `res` months whose boundaries fall on the end of February, covering the
+    February of a leap year; evaluation dates at period end + k*res months (so they hit 29 February too)"""
+    leap = rng.choice([2000, 2004, 2008, 2012, 2016, 2020, 2024])
+    if res == 1:
+        start = gen.add_months_int(D(leap, 2, 1), -rng.randrange(0, 20))
+    else:
+        start = gen.add_months_int(D(leap - 1, 3, 1), -res * rng.randrange(0, 3))
+    # number of periods needed to reach the leap February, plus a few
+    need = 1
+    while gen.add_months_int(start, need * res - 1, end=True) < D(leap, 2, 29):
+        need += 1
+    n_periods = min(need + rng.randrange(0, 7 if res == 1 else 3), 26)
+    n_lags = rng.randrange(1, 4)
+    ragged = rng.random() < 0.3
+    rows = []
+    for i in range(n_periods):
+        ps = gen.add_months_int(start, i * res)
+        pe = gen.add_months_int(ps, res - 1, end=True)
+        lags = [k for k in range(n_lags) if not ragged or rng.random() < 0.7] or [0]
+        rows.append((ps, pe, [gen.add_months_int(pe, k * res, end=True) for k in lags]))
+    cells = []
+    for m in metas:
+        fs = rng.sample(FIELDS, rng.randrange(1, 3))
+        cells += build(rng, rows, m, cls, fs, vkind, n_samples, per_cell)
+    return cells, leap
+
+
 def target_months(t):
     q, u = t
     u = u.lower()
@@ -91,7 +123,7 @@ def month_origin(rng, y0):
 def gen_case(rng):
     c = {}
     r = rng.random()
-    stream = "month" if r < 0.68 else "day" if r < 0.86 else "exotic"
+    stream = "month" if r < 0.54 else "feb" if r < 0.70 else "day" if r < 0.86 else "exotic"
     n_slices = rng.choice([1, 2, 2, 3])
     metas = gen.rand_metas(rng, n_slices, single_attr=rng.random() < 0.7)
     cls = rng.choice(["U", "U", "C", "I"])
@@ -100,7 +132,27 @@ def gen_case(rng):
     per_cell = rng.random() < 0.15
     pres = eres = None
     porigin = eorigin = None
-    if stream in ("month", "exotic"):
+    if stream == "feb":
+        # windows / grids anchored on the END OF FEBRUARY (leap and non-leap years) over data that crosses a leap
+        # February: yearly, two-yearly, half-year and quarter steps must land on 28/29 February correctly
+        res = rng.choice([1, 1, 3, 6, 12])
+        cells, leap = feb_cells(rng, metas, cls, res, vkind, n_samples, per_cell)
+        mode = rng.choice(["period", "eval", "both"])
+        targets = [t for t in FEB_TARGETS if target_months(t) % res == 0] if rng.random() < 0.8 else FEB_TARGETS
+
+        def feb_origin():
+            y = rng.randrange(leap - 5, leap + 4)
+            if rng.random() < 0.8:
+                return gen.month_end(y, 2)
+            return gen.month_end(y, rng.choice([2, 5, 8, 11]))
+
+        if mode in ("period", "both"):
+            pres = rng.choice(targets)
+            porigin = feb_origin()
+        if mode in ("eval", "both"):
+            eres = rng.choice(targets)
+            eorigin = feb_origin()
+    elif stream in ("month", "exotic"):
         res = rng.choice([1, 3, 6, 12])
         cells, y0 = month_cells(rng, metas, cls, res, vkind, n_samples, per_cell)
         mode = rng.choice(["period", "period", "eval", "both", "both", "none"])
@@ -284,6 +336,9 @@ if __name__ == "__main__":
              "different layouts), square/triangle/ragged, int/dyadic scalar and array values, Cell/CumulativeCell/"
              "IncrementalCell; period and/or evaluation target among month/quarter/half-year/year spellings (also 2, 4 "
              "months, 2 years, and day/week targets on month data); origins at any month end in a 9-year span around "
+             "the data; feb stream — periods whose boundaries fall on the end of February across a leap February, "
+             "year/2-year/half-year/quarter steps from origins at the end of February of leap and non-leap years "
+             "(period, evaluation-only and both); "
              "the data or the default; day stream — periods of 1/7/14 days, day/week targets (multiples and "
              "non-multiples), origins aligned or anywhere within -60..+90 days, month targets on day data; exotic "
              "stream — month units from a non-month-end origin (model comparison only). distinct = distinct canonical "
